@@ -3,6 +3,7 @@ import Swat4.Model.Rest
 import Swat4.Model.RestJson
 import Swat4.Model.Styles
 import Swat4.Spec.RestSpec
+import Swat4.Model.HarnessCfg
 /-!
 Driver side of C17 (see `harness/internal/c17/c17.go` for the line format):
 
@@ -28,8 +29,8 @@ implementation's output for every input.
 namespace Swat4.Drv.C17
 open Swat4 Swat4.Drv Swat4.Rest
 
-/-- `DiscoveryRevivalRetries` of the harness world (`world.DefaultOptions().RevivalRetries`) -/
-def maxProbeRetries : Nat := 2
+/-- `DiscoveryRevivalRetries` of the harness world (`world.DefaultOptions().RevivalRetries`): `Model/HarnessCfg.lean` -/
+def maxProbeRetries : Nat := Harness.revivalRetries
 def chars? (b : Bytes) : Option (List Char) := (String.fromUTF8? (ByteArray.mk b.toArray)).map String.toList
 def utf8 (cs : List Char) : Bytes := (String.ofList cs).toUTF8.toList
 /-- bytes as Latin-1 code points: for the spec-side parsers, which only look at ASCII -/
@@ -426,7 +427,8 @@ def checkListElems : List RestSpec.Rec → Nat → Toks → Except String Toks
     let ts ← checkServer s!"[{addrKey r}]." r ts
     checkListElems rs (n + 1) ts
 
-def livenessSecs : Int := 180
+/-- `world.DefaultOptions().Liveness` of the harness world, in seconds: `Model/HarnessCfg.lean` -/
+def livenessSecs : Int := Harness.livenessSecs
 
 def flagOf (v : Option Bytes) : Option Bool :=
   match v with
